@@ -107,6 +107,7 @@ STD_GMF = {"filename": ["combined"], "dirname": None, "fileext": None, "prefix":
 class _State:
     proc = False     # True: real subprocesses (sh stubs); False: in-process stand-in
     log = []         # in-process invocation log of the current run
+    interrupt = 0    # > 0: the next `communicate()` of a stand-in process raises KeyboardInterrupt (Ctrl-C)
 
 
 def _stub_latex(tex, out):
@@ -130,6 +131,7 @@ class _FakePopen(object):
     def __init__(self, command, **kw):
         self.stdout = b""
         self.stderr = b""
+        self.is_latex = command[0] in ("fakelatex", "pdflatex")
         self.returncode = self._run(list(command))
 
     def _run(self, c):
@@ -137,6 +139,14 @@ class _FakePopen(object):
             if c[0] == "fakelatex":
                 _State.log.append(["latex", c[1]])
                 _stub_latex(c[1], c[2])
+                return 0
+            if c[0] == "pdflatex":
+                # the default command of LaTeXToPDF: pdflatex ... -output-directory <dir> <tex> writes <dir>/<job>.pdf
+                tex, outdir = c[-1], c[c.index("-output-directory") + 1]
+                job = os.path.basename(tex)
+                job = job[:-4] if job.endswith(".tex") else job
+                _State.log.append(["latex", tex])
+                _stub_latex(tex, os.path.join(outdir, job + ".pdf"))
                 return 0
             if c[0] == "pdftoppm":
                 _State.log.append(["topng", c[1]])
@@ -153,6 +163,9 @@ class _FakePopen(object):
         return self.returncode
 
     def communicate(self, *a, **k):
+        if _State.interrupt > 0 and self.is_latex:
+            _State.interrupt -= 1
+            raise KeyboardInterrupt()
         return (b"", b"")
 
     def terminate(self):
@@ -194,6 +207,13 @@ echo "latex $1" >> "$STUBLOG"
 [ -f "$1" ] || exit 1
 { printf 'PDF-OF:'; cat "$1"; for f in $(grep -o 'CSV:[^ ]*' "$1" | sed 's/CSV://'); do printf '\\n--%s\\n' "$f"; if [ -f "$f" ]; then cat "$f"; else printf 'MISSING'; fi; done; } > "$2"
 """
+_SH_PDFLATEX = """#!/bin/sh
+# pdflatex -halt-on-error -interaction errorstopmode -output-directory DIR TEX
+for a in "$@"; do tex="$a"; done
+dir="$5"
+job=$(basename "$tex" .tex)
+exec fakelatex "$tex" "$dir/$job.pdf"
+"""
 _SH_PNG = """#!/bin/sh
 echo "topng $1" >> "$STUBLOG"
 [ -f "$1" ] || exit 1
@@ -220,7 +240,7 @@ class _Env(object):
         if proc:
             b = os.path.join(self.base, "bin")
             os.mkdir(b)
-            for name, text in (("fakelatex", _SH_LATEX), ("pdftoppm", _SH_PNG)):
+            for name, text in (("fakelatex", _SH_LATEX), ("pdftoppm", _SH_PNG), ("pdflatex", _SH_PDFLATEX)):
                 p = os.path.join(b, name)
                 with open(p, "w") as f:
                     f.write(text)
@@ -436,7 +456,7 @@ def _snapshot(env, before):
     return res
 
 
-def _pipeline(L, env, cfg, layout, verbose=False):
+def _pipeline(L, env, cfg, layout, verbose=False, default_cmd=False):
     out = env.abs(cfg["outdir"])
     o = L["output"]
     v = bool(verbose)
@@ -445,9 +465,9 @@ def _pipeline(L, env, cfg, layout, verbose=False):
         return ["fakelatex", tex, outname]
     tail = [o.RenderLaTeX("t.tex", template_dir=os.path.join(env.base, "tpl"), verbose=2 if v else 0),
             _write(L, out, cfg["w2"], v),
-            o.LaTeXToPDF(overwrite=cfg["lo"], verbose=2 if v else 0, create_command=cc),
+            o.LaTeXToPDF(overwrite=cfg["lo"], verbose=2 if v else 0, create_command=cc if default_cmd is False else None),
             o.PDFToPNG(overwrite=cfg["po"], verbose=v)]
-    if layout == "group":
+    if layout in ("group", "scalars"):
         return L["core"].Sequence(L["flow"].MapGroup(o.ToCSV(), _mf(L, cfg["mf"]), _write(L, out, cfg["w1"], v)),
                                   _mf(L, cfg["gmf"]), *tail)
     return L["core"].Sequence(o.ToCSV(), _mf(L, cfg["mf"]), _write(L, out, cfg["w1"], v), *tail)
@@ -460,7 +480,7 @@ def _flow(L, layout, plots):
         vals.append((L["structures"].histogram([0, 1, 2], bins=[p["data"], 7]), ctx))
     if layout == "group":
         return [L["flow"].group_plots(vals)]
-    return vals
+    return vals          # separate plots; "scalars": plain values through the group pipeline
 
 
 def _run_hist(case):
@@ -475,6 +495,9 @@ def _run_hist(case):
                     os.remove(env.abs(r))
                 except OSError:
                     pass
+            if st.get("rmdir"):
+                # the output directory itself is removed (the step's "del" lists every file below it)
+                shutil.rmtree(env.abs(OUT), ignore_errors=True)
             if "run" not in st:
                 continue
             rs = st["run"]
@@ -485,22 +508,45 @@ def _run_hist(case):
             try:
                 if seq is None or not case.get("reuse"):
                     # "reuse": ONE pipeline object (Sequence and all its elements) serves every run of the history
-                    seq = _pipeline(L, env, rs, rs["layout"], verbose=bool(case.get("verbose")))
+                    seq = _pipeline(L, env, rs, rs["layout"], verbose=bool(case.get("verbose")),
+                                    default_cmd=bool(case.get("pdflatex")))
             except Exception as e:
                 runs.append({"e": exc_name(e), "phase": "init"})
                 break
+            res, interrupted = [], None
+            _State.interrupt = 1 if (st.get("interrupt") and not env.proc) else 0
             try:
-                res = list(seq.run(iter(_flow(L, rs["layout"], rs["plots"]))))
-            except Exception as e:
-                runs.append({"e": exc_name(e), "phase": "run", "msg": str(e)[:200]})
-                break
+                for v in seq.run(iter(_flow(L, rs["layout"], rs["plots"]))):
+                    res.append(v)
+            except (Exception, KeyboardInterrupt) as e:
+                if st.get("interrupt") and isinstance(e, RuntimeError):
+                    # Ctrl-C while LaTeXToPDF waits: it yields what is finished, terminates the rest, clears its
+                    # pool and ends with `raise StopIteration` (a RuntimeError since PEP 479)
+                    interrupted = exc_name(e)
+                else:
+                    runs.append({"e": exc_name(e), "phase": "run", "msg": str(e)[:200]})
+                    break
             finally:
                 _State.proc = False
+                _State.interrupt = 0
             vals = sorted((_val(env, v) for v in res), key=jdump)
-            runs.append({"files": _snapshot(env, stamps), "log": env.take_log(), "vals": vals})
+            run = {"files": _snapshot(env, stamps), "log": env.take_log(), "vals": vals}
+            if st.get("interrupt"):
+                pools = [len(el.processes) for el in _elements(seq) if hasattr(el, "processes")]
+                run["interrupted"] = interrupted
+                run["pool"] = sum(pools)
+            runs.append(run)
     finally:
         env.close()
     return {"runs": runs}
+
+
+def _elements(seq):
+    """the element objects of a Sequence (adapters unwrapped where they wrap)"""
+    els = []
+    for el in getattr(seq, "_seq", []):
+        els.append(getattr(el, "_el", el))
+    return els
 
 
 def _world_setup(env, world):
@@ -572,6 +618,15 @@ def _run_stage(case):
         except Exception as e:
             return {"e": exc_name(e)}
         return {"mode": "eu" if w._existing_unchanged else ("ow" if w._overwrite else "normal")}
+    if op == "mglen":
+        o = L["output"]
+        mg = L["flow"].MapGroup(o.ToCSV(), _mf(L, STD_MF))
+        val = (["d"] * case["ndata"], {"group": [{"name": "p%d" % i} for i in range(case["ngroup"])]})
+        try:
+            list(mg.run(iter([val])))
+        except Exception as e:
+            return {"e": exc_name(e)}
+        return {"ok": True}
     if op == "render":
         env = _Env()
         try:
@@ -732,6 +787,24 @@ def compare(case, res, replies):
             for i, (x, y) in enumerate(itertools.zip_longest(a, b)):
                 if x != y:
                     return f"run {i}: impl {jdump(x)[:700]} vs model {jdump(y)[:700]}"
+        # the specification side (Model/C19Spec.lean), executed by the driver on the model's worlds, against the
+        # same facts evaluated in Python on the real file system: resolved file names (plotUnit, memberNamed,
+        # groupTexPath), SourceClosed at the start, UnitFresh at the end; and specRun (sepCore / grpCore on the
+        # resolved names) must end in the world of the element-by-element pipeline
+        facts = []
+        hist_failures(case, res, facts)
+        for i, (run, mrun) in enumerate(zip(res["runs"], m["runs"])):
+            if "e" in run or i >= len(facts):
+                continue
+            sp = mrun.get("spec") or {}
+            if "e" in sp:
+                return f"run {i}: the specification side does not resolve the names: {sp}"
+            if sp.get("agrees") is not True:
+                return f"run {i}: specRun (names, then sepCore/grpCore) does not end in the world of the pipeline"
+            mine = sorted(([f["unit"], f["closed"], f["fresh"]] for f in facts[i]), key=jdump)
+            theirs = sorted(([u, c, f] for u, c, f in zip(sp["units"], sp["closed"], sp["fresh"])), key=jdump)
+            if mine != theirs and len(facts[i]) == len(sp["units"]):
+                return f"run {i}: units/SourceClosed/UnitFresh: real file system {jdump(mine)[:500]} vs Lean {jdump(theirs)[:500]}"
         return None
     if op in ("write", "latex", "png"):
         a, b = _norm_run(res), _norm_run(_mark_passed(case, m))
@@ -890,6 +963,10 @@ def _oracle_stage(case, res):
                         f"template {t} (states of the file: {case['tpls']})")
             prev = (t, m)
         return None
+    if op == "mglen":
+        if case["ndata"] != case["ngroup"]:
+            return None if res.get("e") == "LenaRuntimeError" else f"MapGroup: data of length {case['ndata']} with a group of {case['ngroup']}: expected LenaRuntimeError, got {res}"
+        return None if "e" not in res else f"MapGroup raised {res}"
     if op == "gp":
         if "e" in res:
             return f"group_plots raised {res}"
@@ -998,14 +1075,23 @@ def _units(rs, run):
         o = v["out"]
         fp = o.get("filepath") or ""
         base = fp[:-4] if fp.endswith(".tex") else fp
-        csvs = [base + ".csv"] if v["group"] is None else [g.get("filepath") for g in v["group"]]
+        if v["group"] is not None:
+            csvs = [g.get("filepath") for g in v["group"]]
+        else:
+            # the csv file is the one the .tex file names (a later MakeFilename(overwrite=True) may have renamed
+            # the value after its csv file was written)
+            tex = (run["files"].get(base + ".tex") or {}).get("c") or {}
+            csvs = tex["deps"] if isinstance(tex, dict) and len(tex.get("deps", [])) == 1 else [base + ".csv"]
         units.append({"base": base, "csvs": csvs, "tex": base + ".tex", "pdf": base + ".pdf", "png": base + ".png",
                       "val": v})
     return units
 
 
-def hist_failures(case, res):
-    """All primary failures of a history: list of (class, text); class 'known' or 'violation'."""
+def hist_failures(case, res, facts=None):
+    """All primary failures of a history: list of (class, text); class 'known' or 'violation'.
+    With `facts` (a list) the per-run facts are appended to it: for every unit (plot or group) of the run its
+    files, whether the run started SourceClosed for it (every existing pdf has its tex and csv files on disk)
+    and whether all its files are fresh afterwards — evaluated on the real file system, independently of Lean."""
     fails = []
     prev = {}          # rel -> token after the previous run
     tainted = set()    # unit bases whose derived artefacts were stale after the previous run
@@ -1031,6 +1117,19 @@ def hist_failures(case, res):
         log = run["log"]
         nplots = len(rs["plots"])
         want_vals = 1 if rs["layout"] == "group" else nplots
+        if st.get("interrupt") and run.get("pool"):
+            fails.append(("violation", f"{tag}: after an interrupted run the pool of LaTeXToPDF still holds "
+                          f"{run['pool']} processes (they would be yielded by the next run)"))
+        names = [pl["name"] for pl in rs["plots"]]
+        if rs["layout"] != "group" and len(set(names)) < len(names):
+            # several plots share one file name: the later plot overwrites the files of the earlier one; the
+            # property speaks about plots with files of their own (the theorems' UnitsOK).  Compared with the
+            # model only.
+            if facts is not None:
+                facts.append([])
+            prev = files
+            tainted = set()
+            continue
         if len(run["vals"]) != want_vals:
             fails.append(("violation", f"{tag}: {len(run['vals'])} values yielded for {nplots} plots ({rs['layout']})"))
         units = _units(rs, run)
@@ -1044,8 +1143,15 @@ def hist_failures(case, res):
                 data_of[_ref_base(rs, pl["name"]) + ".csv"] = pl["data"]
         new_tainted = set()
         ow_any = rs["w1"] == "ow" or rs["w2"] == "ow" or rs["lo"] or rs["po"]
+        run_facts = []
+        if facts is not None:
+            facts.append(run_facts)
         for u in units:
             v, o = u["val"], u["val"]["out"]
+            fact = {"unit": [u["csvs"], u["tex"], u["pdf"], u["png"]],
+                    "closed": u["pdf"] not in pre or (u["tex"] in pre and all(p in pre for p in u["csvs"])),
+                    "fresh": False}
+            run_facts.append(fact)
             # -- every file named by a yielded value exists at output_directory/dirname/filename.fileext
             where = _join(rs["outdir"], o.get("dirname") or "", o.get("filename") or "")
             if u["base"] != where or v["data"] != {"path": u["png"]}:
@@ -1089,6 +1195,7 @@ def hist_failures(case, res):
             latex = ["latex", u["tex"]] in log
             topng = ["topng", u["pdf"]] in log
             stale_pdf = files[u["pdf"]] != e_pdf
+            fact["fresh"] = not stale_pdf and files[u["png"]] == {"png": e_pdf}
             if files[u["png"]] != {"png": files[u["pdf"]]}:
                 fails.append(("violation", f"{tag}: {u['png']} was not converted from the current {u['pdf']}: "
                               f"{jdump(files[u['png']])[:200]} vs pdf {jdump(files[u['pdf']])[:200]}"))
@@ -1179,7 +1286,11 @@ def classify(case, res):
     labels = []
     runs = [st["run"] for st in case["steps"] if "run" in st]
     labels.append(f"hist:{runs[0]['layout']}:plots={len(runs[-1]['plots'])}:runs={len(runs)}")
-    labels.append("stub:" + case.get("stub", "fake"))
+    labels.append("stub:" + case.get("stub", "fake") + (", default pdflatex command" if case.get("pdflatex") else ""))
+    if any(st.get("interrupt") for st in case["steps"]):
+        labels.append("KeyboardInterrupt during a run")
+    if any(st.get("rmdir") for st in case["steps"]):
+        labels.append("output directory removed")
     labels.append("pipeline objects:" + ("one object re-used for all runs" if case.get("reuse") else "new for every run"))
     for r in runs[1:]:
         labels.append(f"write modes (csv/tex):{r['w1']}/{r['w2']}")
@@ -1368,6 +1479,11 @@ def _stage_cases():
     for n in (2, 3):
         for seq in itertools.product(states, repeat=n):
             cases.append({"op": "render2", "tpls": [list(x) for x in seq]})
+    # MapGroup: the data list and context.group must have the same length
+    for a in range(0, 3):
+        for b in range(0, 3):
+            if (a, b) != (0, 0):
+                cases.append({"op": "mglen", "ndata": a, "ngroup": b})
     # group_plots / _update_with_group
     tri = (None, True, False)
     for n in range(1, 4):
@@ -1420,37 +1536,37 @@ def _random_history(rng, max_runs=4, max_plots=3, const_cfg=False):
     return {"op": "hist", "steps": steps}
 
 
-def gen_cases(ctx):
+def _base_histories(ctx):
+    """the histories of a tier (lazily), each with new pipeline objects for every run"""
     rng = ctx.rng
     thorough = ctx.tier == "thorough"
-    cases = _stage_cases()
     std = [_cfg()]
     first = _run_step(_cfg(), "separate", 1, [1])
-    closed, open_ = [], []
-
-    def add(c):
-        (closed if _source_closed(c) else open_).append(c)
     # E: one plot, the whole 64-step alphabet after a first run (standard options) ...
-    for st in _alphabet("separate", 1, std):
-        add({"op": "hist", "steps": [first, st]})
-    # ... and with every option setting
-    for st in _alphabet("separate", 1, ALL_CFGS[1:]):
-        add({"op": "hist", "steps": [first, st]})
+    alpha1 = list(_alphabet("separate", 1, std))
+    for st in alpha1:
+        yield {"op": "hist", "steps": [first, st]}
+    # ... and with every option setting (quick: every second step of each setting's alphabet)
+    for i, cfg in enumerate(ALL_CFGS[1:]):
+        for j, st in enumerate(_alphabet("separate", 1, [cfg])):
+            if thorough or (i + j) % 2 == 0:
+                yield {"op": "hist", "steps": [first, st]}
     # E: a group of two plots, the whole alphabet (256 steps) after a first run
     gfirst = _run_step(_cfg(), "group", 1, [1, 1])
-    for st in _alphabet("group", 2, std):
-        add({"op": "hist", "steps": [gfirst, st]})
-    # a group of one and of three plots, two separate plots: data/template changes, single deletions
+    galpha = list(_alphabet("group", 2, std))
+    for st in galpha:
+        yield {"op": "hist", "steps": [gfirst, st]}
+    # a group of one and of three plots, two and three separate plots: data/template changes, single deletions
     for layout, n in (("group", 1), ("group", 3), ("separate", 2), ("separate", 3)):
         f0 = _run_step(_cfg(), layout, 1, [1] * n)
         files = _unit_files(layout, n)
         for datas in itertools.product((1, 2), repeat=n):
             for tpl in (1, 2):
                 for dels in [[]] + [[f] for f in files]:
-                    add({"op": "hist", "steps": [f0, _run_step(_cfg(), layout, tpl, list(datas), dels)]})
+                    yield {"op": "hist", "steps": [f0, _run_step(_cfg(), layout, tpl, list(datas), dels)]}
     # no plots at all (outside the property; the model's branches are compared)
-    add({"op": "hist", "steps": [_run_step(_cfg(), "group", 1, []), _run_step(_cfg(), "separate", 1, [])]})
-    add({"op": "hist", "steps": [_run_step(_cfg(), "separate", 1, []), _run_step(_cfg(), "separate", 1, [1])]})
+    yield {"op": "hist", "steps": [_run_step(_cfg(), "group", 1, []), _run_step(_cfg(), "separate", 1, [])]}
+    yield {"op": "hist", "steps": [_run_step(_cfg(), "separate", 1, []), _run_step(_cfg(), "separate", 1, [1])]}
     # other file names: sub-directories, literal parts, a default file name, a named group in a directory
     variants = [
         ("separate", 2, _cfg(mf=dict(STD_MF, dirname=["sub"]))),
@@ -1467,62 +1583,114 @@ def gen_cases(ctx):
         for datas in itertools.product((1, 2), repeat=n):
             for tpl in (1, 2):
                 for dels in [[], files[:1], files[-3:-2], files[-2:-1], files[-1:], files[:1] + files[-2:-1]]:
-                    add({"op": "hist", "steps": [f0, _run_step(cfg, layout, tpl, list(datas), dels)]})
-    # histories of two steps after the first run
-    alpha1 = list(_alphabet("separate", 1, std))
-    if thorough:
-        # E: one plot, standard options: ALL histories of three runs (the first run is fixed by symmetry);
-        # S: histories of four runs
-        for s1 in alpha1:
-            for s2 in alpha1:
-                add({"op": "hist", "steps": [first, s1, s2]})
-        for _ in range(50000):
-            add({"op": "hist", "steps": [first, rng.choice(alpha1), rng.choice(alpha1), rng.choice(alpha1)]})
-        galpha = list(_alphabet("group", 2, std))
-        for _ in range(20000):
-            add({"op": "hist", "steps": [gfirst, rng.choice(galpha), rng.choice(galpha)]})
-        calpha = list(_alphabet("separate", 1, ALL_CFGS))
-        for _ in range(30000):
-            add({"op": "hist", "steps": [first, rng.choice(calpha), rng.choice(calpha)]})
-        for _ in range(30000):
-            add(_random_history(rng))
-    else:
-        for _ in range(900):
-            add({"op": "hist", "steps": [first, rng.choice(alpha1), rng.choice(alpha1)]})
+                    yield {"op": "hist", "steps": [f0, _run_step(cfg, layout, tpl, list(datas), dels)]}
+    # plain values through the group pipeline (MapGroup maps its sequence to scalars)
+    for n in (1, 2):
+        f0 = _run_step(_cfg(), "scalars", 1, [1] * n)
+        files = _unit_files("separate", n)
+        for datas in itertools.product((1, 2), repeat=n):
+            for tpl in (1, 2):
+                for dels in [[]] + [[f] for f in files] + [files[:2]]:
+                    yield {"op": "hist", "steps": [f0, _run_step(_cfg(), "scalars", tpl, list(datas), dels)]}
+    # several plots sharing one file name (outside the property: compared with the model only)
+    for datas in ([1, 1], [1, 2], [2, 1]):
+        for tpl in (1, 2):
+            f0 = _run_step(_cfg(), "separate", 1, [1, 2], names=["p0", "p0"])
+            yield {"op": "hist", "steps": [f0, _run_step(_cfg(), "separate", tpl, datas, names=["p0", "p0"])]}
+    # the output directory itself is removed between the runs
+    for layout, n in (("separate", 1), ("separate", 2), ("group", 2)):
+        files = _unit_files(layout, n)
+        for datas in itertools.product((1, 2), repeat=n):
+            for tpl in (1, 2):
+                st = _run_step(_cfg(), layout, tpl, list(datas), files)
+                st["rmdir"] = True
+                yield {"op": "hist", "steps": [_run_step(_cfg(), layout, 1, [1] * n), st,
+                                               _run_step(_cfg(), layout, tpl, list(datas))]}
+    # Ctrl-C while LaTeXToPDF waits for its commands, then the same pipeline object is used again
+    for layout, n in (("separate", 1), ("separate", 2), ("group", 2)):
+        files = _unit_files(layout, n)
+        for datas in itertools.product((1, 2), repeat=n):
+            for dels in ([], files[-2:-1], files[:1]):
+                st = _run_step(_cfg(), layout, 1, list(datas), dels)
+                st["interrupt"] = True
+                for reuse in (False, True):
+                    yield {"op": "hist", "reuse": reuse,
+                           "steps": [_run_step(_cfg(), layout, 1, [1] * n), st, _run_step(_cfg(), layout, 2, list(datas))]}
+    # MakeFilename(overwrite=True): the group's MakeFilename replaces what the members have in common
+    ow_variants = [
+        ("separate", 2, _cfg(mf=dict(STD_MF, overwrite=True))),
+        ("group", 1, _cfg(gmf=dict(STD_GMF, overwrite=True))),
+        ("group", 2, _cfg(mf=dict(STD_MF, dirname=["sub"]), gmf=dict(STD_GMF, dirname=["g"], overwrite=True))),
+        ("scalars", 2, _cfg(gmf=dict(STD_GMF, filename=["x_", None], overwrite=True))),
+    ]
+    for layout, n, cfg in ow_variants:
+        f0 = _run_step(cfg, layout, 1, [1] * n)
+        for datas in itertools.product((1, 2), repeat=n):
+            for tpl in (1, 2):
+                yield {"op": "hist", "steps": [f0, _run_step(cfg, layout, tpl, list(datas))]}
+    if not thorough:
         for _ in range(500):
-            add(_random_history(rng))
-    # ONE pipeline object re-used for all runs of a history (the elements keep state between runs: the template
-    # cache of RenderLaTeX, the pool of LaTeXToPDF): a twin of every history whose runs share their options
-    for _ in range(6000 if thorough else 400):
-        add(_random_history(rng, const_cfg=True))
-    pool = [c for c in closed + open_ if _reusable(c)]
-    if thorough and len(pool) > 40000:
-        pool = rng.sample(pool, 40000)
-    for i, c in enumerate(pool):
-        twin = dict(copy.deepcopy(c), reuse=True)
-        if i % 7 == 0:
-            twin["verbose"] = True      # the elements' messages (printed to a null device)
-        add(twin)
-    # real subprocesses as converters on a sample
-    hists = closed + open_
-    for c in rng.sample(hists, 150 if thorough else 24):
-        add(dict(copy.deepcopy(c), stub="proc"))
-    # histories that cannot show the known finding first (any failure among them is a violation)
-    cases.extend(closed)
-    cases.extend(open_)
-    _mark_known_witnesses(cases)
+            yield {"op": "hist", "steps": [first, rng.choice(alpha1), rng.choice(alpha1)]}
+        for _ in range(250):
+            yield _random_history(rng)
+        for _ in range(150):
+            yield _random_history(rng, const_cfg=True)
+        return
+    # thorough.  E: one plot, standard options: ALL histories of three runs (the first run is fixed by symmetry);
+    # S: histories of four runs, groups, option settings, random histories (interleaved, so that any prefix of the
+    # stream is a mixture)
+    calpha = list(_alphabet("separate", 1, ALL_CFGS))
+    for s1 in alpha1:
+        for s2 in alpha1:
+            yield {"op": "hist", "steps": [first, s1, s2]}
+            for _ in range(12):
+                yield {"op": "hist", "steps": [first, rng.choice(alpha1), rng.choice(alpha1), rng.choice(alpha1)]}
+            for _ in range(5):
+                yield {"op": "hist", "steps": [gfirst, rng.choice(galpha), rng.choice(galpha)]}
+            for _ in range(7):
+                yield {"op": "hist", "steps": [first, rng.choice(calpha), rng.choice(calpha)]}
+            for _ in range(7):
+                yield _random_history(rng)
+            yield _random_history(rng, const_cfg=True)
+
+
+def _gen(ctx):
+    rng = ctx.rng
+    thorough = ctx.tier == "thorough"
+    for c in _stage_cases():
+        yield c
+    n = 0
+    for c in _base_histories(ctx):
+        n += 1
+        yield c
+        # ONE pipeline object re-used for all runs of the history (the elements keep state between runs: the
+        # template cache of RenderLaTeX, the pool of LaTeXToPDF): a twin of histories whose runs share their options
+        if _reusable(c) and (n <= 64 or rng.random() < (0.3 if thorough else 0.16)):
+            twin = dict(c, reuse=True)
+            if n % 7 == 0:
+                twin["verbose"] = True      # the elements' messages (printed to a null device)
+            yield twin
+        # real subprocesses as converters on a sample; the default command of LaTeXToPDF (a stub `pdflatex`)
+        if n % (900 if thorough else 140) == 0:
+            yield dict(c, stub="proc")
+        if n % (900 if thorough else 140) == 70:
+            yield dict(c, stub="proc", pdflatex=True)
+        if n % (37 if thorough else 23) == 0:
+            yield dict(c, pdflatex=True)
+
+
+def gen_cases(ctx):
+    """a lazy stream of cases (harness.common extends a list with it, or samples a prefix of the thorough stream)"""
     ctx.exhaustive = False
-    return cases
+    return _gen(ctx)
 
 
 def search_cases(ctx):
     """failing-input search after a broken proof or correspondence: the quick scope (exhaustive one-step alphabets)
     with the search seed, plus more random histories"""
     sub = common.Ctx(PID, "quick", ctx.seed)
-    cases = gen_cases(sub)
-    extra = [_random_history(sub.rng) for _ in range(3000)]
-    cases.extend(extra)
-    _mark_known_witnesses(cases)
+    cases = list(gen_cases(sub))
+    cases.extend(_random_history(sub.rng) for _ in range(3000))
     return cases
 
 
